@@ -10,8 +10,18 @@ import time
 CACHE_TARGET = ".cache/replay-target"
 
 
+_LOCKS = {}
+
+
 def scratch_copy(repo, tag):
     d = "/tmp/verif-scratch-%s" % tag
+    # the path is fixed (cargo's cache is keyed by it); concurrent checks of the same property take turns
+    global _LOCKS
+    import fcntl
+    if d not in _LOCKS:
+        lk = open(d + ".lock", "w")
+        fcntl.flock(lk, fcntl.LOCK_EX)
+        _LOCKS[d] = lk   # released when the check process exits
     shutil.rmtree(d, ignore_errors=True)
     subprocess.run(["rsync", "-a", "--exclude", "target", "--exclude", ".git", repo.rstrip("/") + "/", d + "/"], check=True)
     return d
